@@ -316,6 +316,7 @@ class SimConnection:
         ev = classify(sql) if self._role == "run" else ("OTHER", None, None)
         tok = SIM.step("execute", sql)
         if ev[0] == "EXEC":
+            self._hist(("EXEC-ATTEMPT", ev[1], ev[2]))
             self._flush_pending_perms()
             if SIM.record_sql:
                 SIM.sql_log.append(sql)
